@@ -94,6 +94,8 @@ for it in range(R.n(8, 100)):
     R.check('from_data/same-framing', c, inj.block_size == bs and inj.num_bits == nbits and inj.num_chans == nc and inj.blocks_per_file == min(bpf, N) and inj.input_num_blocks == N
             and inj.header_size == (lambda n: (n + 511) // 512 * 512 if int(inp[0][0].get('DIRECTIO', 0)) else n)(80 * (len(inp[0][0]) + 1)),
             [inj.block_size, inj.num_bits, inj.num_chans, inj.blocks_per_file, inj.input_num_blocks, inj.header_size])
+    R.check('from_data/requantiser-components-use-the-input-bit-depth', c, all(q.num_bits == nbits and q.quantizer_r.num_bits == nbits and q.quantizer_i.num_bits == nbits
+                                                                               for row in inj.requantizer for q in row), None)
     inj.input_file_handler = open(stem_in + '.0000.raw', 'rb')
     first = inj._read_next_block()
     inj.input_file_handler.close()
